@@ -65,6 +65,28 @@ Proof. exact (@MixBridge.mixed_flags). Qed.
 Print Assumptions C09_mixed_flags_on_runs.
 End M_C09_mixed_flags_on_runs.
 
+(* the offline Multistage schedule concludes: EndReverse within 6 * TC N S + 1 requests *)
+Module M_C09_multistage_terminates.
+Import AllocTotal.
+Theorem C09_multistage_terminates :
+  forall (N ram disk : Z) (tj : NAdvance.traj) (k : nat),
+         1 <= N ->
+         0 <= ram ->
+         0 <= disk ->
+         (2 <= N -> 1 <= ram + disk) ->
+         let S_ := Z.min (Z.min ram (N - 1) + Z.min disk (N - 1)) (N - 1) in
+         6 * Inst.TC tj N S_ < Z.of_nat k ->
+         exists (o0 : Sched.obs) (m : Sched.mon) (ls : list Sched.line),
+           Sched.run_case (Sched.PMulti N ram disk tj) (MultistageRun.ms_params N ram disk)
+             (repeat Sched.Next k) = Actions.Ok (o0, m, ls) /\
+           RunFacts.mon_ok m /\
+           RunFacts.no_raise ls /\
+           (exists ob : Sched.obs, In (Sched.LNext (Actions.Yield Actions.EndReverse) ob) ls) /\
+           Exec.fwd_total (Exec.cnt (Sched.mx m)) = Inst.TC tj N S_.
+Proof. exact (@AllocTotal.multistage_terminates). Qed.
+Print Assumptions C09_multistage_terminates.
+End M_C09_multistage_terminates.
+
 (* PARTIAL: termination measure of the Multistage machine decreases at every yielded action (so the final action is reached); "each further pass is an exact repeat of the first" is covered by executability for every k above, the literal equality of passes by correspondence + oracle *)
 Module M_C09_multistage_terminates_partial.
 Import MSTerm.
